@@ -43,12 +43,17 @@ def TextSliced (s : Str) (ts : List Token) (g : SpanKey → Option Span) (q : Pa
     SlicesTo s g ⟨q, .text⟩ (runSlice run) ∧ runValue run = some v ∧
     decodeRun (startsInCdata run) (runSlice run) = some v
 
+/-- The comment with value `v` at `q`: the span slices to the body AS WRITTEN (`w`), the value is its
+    line-end normalisation (CR LF / CR → LF). -/
 def CommentSliced (s : Str) (g : SpanKey → Option Span) (q : Path) (v : Str) : Prop :=
-  SlicesTo s g ⟨q, .comment⟩ v
+  ∃ w, SlicesTo s g ⟨q, .comment⟩ w ∧ v = normalizeLineEnds w
 
+/-- The PI `id` with data `d` at `q`: the target as written is the name (not `xml` in any letter
+    case); the content span slices to the data AS WRITTEN, the data is its line-end normalisation. -/
 def PiSliced (s : Str) (g : SpanKey → Option Span) (env : Env) (q : Path) (id : Nat) (d : Option Str) : Prop :=
-  ∃ target, SlicesTo s g ⟨q, .piTarget⟩ target ∧ env.names[id]? = some (target, Env.noNamespace) ∧
-    ∀ c, d = some c → SlicesTo s g ⟨q, .piContent⟩ c
+  ∃ target, SlicesTo s g ⟨q, .piTarget⟩ target ∧ isReservedPiTarget target = false ∧
+    env.names[id]? = some (target, Env.noNamespace) ∧
+    ∀ c, d = some c → ∃ w, SlicesTo s g ⟨q, .piContent⟩ w ∧ c = normalizeLineEnds w
 
 /-- Per node kind. -/
 def NodeSliced (s : Str) (ts : List Token) (g : SpanKey → Option Span) (env : Env) (scope : NsStack) (q : Path)
@@ -101,21 +106,78 @@ theorem nodeFacts_sliced {s : Str} {ts : List Token} {g : SpanKey → Option Spa
     rw [decodeRun_runSlice ⟨hall, hadj⟩, hv]
   | comment w =>
     obtain ⟨t, sp, hm, hg, rfl⟩ := h
-    exact slicesTo_span hg (hl.slices _ hm).1
+    exact ⟨t.text, slicesTo_span hg (hl.slices _ hm).1, rfl⟩
   | pi id d =>
-    obtain ⟨tg, c, sp, hm, h1, h2, h3, h4⟩ := h
+    obtain ⟨tg, c, sp, hm, h1, h2, h3, h4, h5⟩ := h
     have hsl := hl.slices _ hm
-    refine ⟨tg.text, slicesTo_span h1 hsl.1, h2, fun c' hc' => ?_⟩
+    refine ⟨tg.text, slicesTo_span h1 hsl.1, h5, h2, fun c' hc' => ?_⟩
     subst h3
     cases c with
     | none => cases hc'
     | some cs =>
       simp only [Option.map_some, Option.some.injEq] at hc'
       subst hc'
-      exact slicesTo_span (h4 cs rfl) (hsl.2.1 cs rfl)
+      exact ⟨cs.text, slicesTo_span (h4 cs rfl) (hsl.2.1 cs rfl), rfl⟩
   | document => trivial
   | «attribute» n w => trivial
   | «namespace» p n => trivial
+
+/-! ### A slice of a text without carriage return has none -/
+
+theorem dropBytes_subset : ∀ (n : Nat) (s r : Str), dropBytes n s = some r → ∀ c ∈ r, c ∈ s
+  | n, [], r, h, c, hc => by
+    simp only [dropBytes] at h
+    split at h
+    · cases h; exact hc
+    · cases h
+  | n, x :: xs, r, h, c, hc => by
+    simp only [dropBytes] at h
+    split at h
+    · cases h; exact hc
+    · split at h
+      · exact List.mem_cons_of_mem _ (dropBytes_subset _ xs r h c hc)
+      · cases h
+
+theorem takeBytes_subset : ∀ (n : Nat) (s r : Str), takeBytes n s = some r → ∀ c ∈ r, c ∈ s
+  | n, [], r, h, c, hc => by
+    simp only [takeBytes] at h
+    split at h
+    · cases h; exact hc
+    · cases h
+  | n, x :: xs, r, h, c, hc => by
+    simp only [takeBytes] at h
+    split at h
+    · cases h; cases hc
+    · split at h
+      · cases ht : takeBytes (n - utf8Len x) xs with
+        | none => rw [ht] at h; cases h
+        | some r' =>
+          rw [ht] at h
+          simp only [Option.map_some, Option.some.injEq] at h
+          subst h
+          rcases List.mem_cons.1 hc with rfl | hc'
+          · exact List.mem_cons_self
+          · exact List.mem_cons_of_mem _ (takeBytes_subset _ xs r' ht c hc')
+      · cases h
+
+/-- Every character of `s.get(a..b)` is a character of `s`. -/
+theorem sliceBytes_subset {s w : Str} {a b : Nat} (h : sliceBytes s a b = some w) : ∀ c ∈ w, c ∈ s := by
+  unfold sliceBytes at h
+  split at h
+  · cases hd : dropBytes a s with
+    | none => rw [hd] at h; cases h
+    | some r =>
+      rw [hd] at h
+      simp only [Option.bind_some] at h
+      exact fun c hc => dropBytes_subset a s r hd c (takeBytes_subset _ r w h c hc)
+  · cases h
+
+/-- In a source without carriage return the written text IS the value. -/
+theorem SlicesTo.normalized_of_noCr {s : Str} {g : SpanKey → Option Span} {key : SpanKey} {w : Str}
+    (hcr : '\r' ∉ s) (h : SlicesTo s g key w) : SlicesTo s g key (normalizeLineEnds w) := by
+  obtain ⟨sp, hg, hs⟩ := h
+  rw [normalizeLineEnds_noCr _ (fun hw => hcr (sliceBytes_subset hs _ hw))]
+  exact ⟨sp, hg, hs⟩
 
 /-- String level: every node of a tree accepted by `parse` / `parse_fragment`. -/
 theorem parseString_sliced {m : Mode} {env : Env} {s : Str} {p : Parsed} (h : parseString m env s = .ok p)
